@@ -149,7 +149,7 @@ class DecodeStream:
         return obs
 
     @staticmethod
-    def handle(proto, api, data):
+    def handle(proto, api, data, history=False):
         import warnings
         warnings.simplefilter("ignore", DeprecationWarning)
         w = World()
@@ -190,6 +190,17 @@ class DecodeStream:
             c.on_publish = lambda cl, ud, mid, reason, props: ev.append(f"on_publish mid={mid} reason={rv(reason)} props={pv(props)}")
         c.on_message = lambda cl, ud, m: ev.append(
             f"on_message dup={int(m.dup)} qos={m.qos} retain={int(m.retain)} topic={hx(m._topic)} mid={m.mid} props={pv(m.properties)} payload={hx(bytes(m.payload))}")
+        if history:
+            # the client has already handled acknowledgements in their long form (reason code and properties) for OTHER messages:
+            # what a callback is handed for the packet under test must not depend on them
+            c.publish("t", b"c", 1)              # mid 3
+            c.publish("t", b"d", 2)              # mid 4
+            s.feed(wire.enc_ack(proto, wire.PUBACK, 3, rc=16 if v5 else None, props=[(31, b"earlier puback")] if v5 else None))
+            s.feed(wire.enc_ack(proto, wire.PUBREC, 4))
+            s.feed(wire.enc_ack(proto, wire.PUBCOMP, 4, rc=146 if v5 else None, props=[(31, b"earlier pubcomp"), (38, (b"k", b"v"))] if v5 else None))
+            for _ in range(4):
+                c.loop_read()
+            ev.clear()
         s.feed(data)
         try:
             rc = c.loop_read()
@@ -382,4 +393,28 @@ class DecodeStream:
         return any(o.startswith("on_") for o in obs)
 
 
-STREAMS = [DecodeStream()]
+class DecodeHistStream(DecodeStream):
+    """the same packets, handed to a client that has ALREADY handled long-form acknowledgements (reason code and properties) for
+    other messages: the values a callback receives must be those of the packet it belongs to. No Lean model (the decoders'
+    model is stateless); the independent oracle of the decode stream judges the real client."""
+    name = "decodehist"
+    props = ["C05"]
+    has_model = False
+
+    def gen(self, rng, tier):
+        case = []
+        for _ in range(rng.randint(3, 8)):
+            proto = rng.choice([5, 5, 5, 4])
+            api = rng.choice([1, 2, 2])
+            case.append(f"handle {proto} {api} {hx(self.rand_packet(rng, proto))}")
+        return case
+
+    def real(self, case):
+        obs = []
+        for line in case:
+            t = line.split()
+            obs.append(self.handle(int(t[1]), int(t[2]), unhx(t[3]), history=True))
+        return obs
+
+
+STREAMS = [DecodeStream(), DecodeHistStream()]
